@@ -29,6 +29,9 @@ def run(ctx):
     tc.optional_part(ctx, "scalar", "run_part", "C02")
     big_padding_probe(ctx)
     tc.optional_part(ctx, "composites", "run_part")
+    summ = tc.optional_part(ctx, "progcheck", "run_mode", "conv", 4000 if ctx.quick() else 40000)
+    if summ is not None:
+        ctx.cov["conv_reference_oracle"] = {k: summ.get(k) for k in ("programs", "ok", "fail", "nontrivial", "wall_s")}
     ctx.cov["rule"] = ("cases = calls of every modelled forward Device entry point on the Naive backend with shapes of depth 0..8 (size-1 axes anywhere), "
                        "axes below/at/beyond the depth and >= 8, batch 1 vs B on each operand, invalid arguments mixed in; data-movement kernels get index-identity "
                        "inputs (the output IS the kernel's dst<-src map), arithmetic kernels small integers (exact in float32), compared bitwise with the extracted "
